@@ -315,6 +315,24 @@ theorem serial_run_valid (sc : Sched) (i : Tid) (hv : ValidFrom State.init Cfg.c
     obsOf i (run Cfg.code State.init (proj i sc)).2 = (run Cfg.code State.init (proj i sc)).2.map (·.2) :=
   ⟨Nima.Sched.proj_valid sc i hv, Nima.Sched.obsOf_proj _ _ sc i⟩
 
+/-- **History independence on one thread.**  A well-nested block of context-variable steps
+    (`with source_path_context(p): … with source_bytes_context(b): …`, whatever parser, registry
+    and read steps happen inside) leaves every context-variable cell and the thread's token
+    stack exactly as it found them — under every storage configuration — so the next document
+    processed on the same thread starts from the same context state; and no reset in it fails. -/
+theorem balanced_restores (c : Cfg) (t : Tid) (ops : List Op) (hb : Balanced ops) (s : Sched.State) :
+    (run c s (solo t ops)).1.cell = s.cell ∧ (run c s (solo t ops)).1.toks = s.toks :=
+  Nima.Sched.balanced_restores c t ops hb s
+
+theorem balanced_no_ctx_err (c : Cfg) (t : Tid) (ops : List Op) (hb : Balanced ops) (s : Sched.State) :
+    ∀ p ∈ ops.zip (run c s (solo t ops)).2, (∃ v, p.1 = .ctxReset v) → p.2.2 = .unit :=
+  Nima.Sched.balanced_no_ctx_err c t ops hb s
+
+/-- Non-vacuity: what `parse_file` executes is such a block. -/
+example : Balanced [.ctxSet .path 1, .getParser, .parseBegin 7, .parseEnd, .ctxSet .bytes 2,
+    .ctxGet .bytes, .ctxReset .bytes, .ctxReset .path] :=
+  .block (.plain rfl (.plain rfl (.plain rfl (.block (.plain rfl .nil) .nil)))) .nil
+
 /-- Each per-thread storage is needed: with a process-wide parser / source-bytes cell /
     source-path cell there is a schedule on which thread 0 observes another thread's data. -/
 theorem cex_shared_parser : ∃ (sc : Sched) (i : Tid), ValidFrom State.init ⟨false, true, true⟩ sc ∧
